@@ -152,3 +152,18 @@ mutant("c11-streaming-init-first", "C11", "C11.dom.streaming", STREAM,
 mutant("c11-extra-writer", "C11", "C11.who.limit", FD,
        "    pub fn init(&mut self, source: impl Read) -> Result<(), FrameDecoderError> {\n        self.reset(source)", "    pub fn init(&mut self, source: impl Read) -> Result<(), FrameDecoderError> {\n        self.max_window_size = self.max_window_size.max(DEFAULT_MAX_WINDOW_SIZE);\n        self.reset(source)")
 benign("c11-flip-compare", "C11", FD, "        if window_size > max_window_size {", "        if max_window_size < window_size {")
+
+# ---- C05 -------------------------------------------------------------------------------
+mutant("c05-no-literals-guard", "C05", "C05.dom.block-bound", BLKD, "        if section.regenerated_size > MAX_BLOCK_SIZE {", "        if section.regenerated_size > MAX_BLOCK_SIZE * 8 {")
+mutant("c05-no-seq-guard", "C05", "C05.dom.block-bound", SEQX, "        if seq_sum + seq.ll + seq.ml > MAX_BLOCK_SIZE {", "        if seq_sum + seq.ll > MAX_BLOCK_SIZE {")
+mutant("c05-guard-after-growth", "C05", "C05.dom.block-bound", SEQX,
+       "        if seq_sum + seq.ll + seq.ml > MAX_BLOCK_SIZE {\n            return Err(ExecuteSequencesError::BlockTooLarge {\n                size: seq_sum + seq.ll + seq.ml,\n            });\n        }\n\n        if seq.ll > 0 {",
+       "        if seq.ll > 0 {",
+       more=[{"file": SEQX, "find": "        seq_sum += seq.ml;\n        seq_sum += seq.ll;\n", "replace": "        seq_sum += seq.ml;\n        seq_sum += seq.ll;\n        if seq_sum > MAX_BLOCK_SIZE {\n            return Err(ExecuteSequencesError::BlockTooLarge { size: seq_sum });\n        }\n", "count": 1}])
+mutant("c05-sum-not-advanced", "C05", "C05.dom.block-bound", SEQX, "        seq_sum += seq.ml;\n        seq_sum += seq.ll;\n", "        seq_sum += seq.ll;\n")
+mutant("c05-trailing-literals-unbounded", "C05", "C05.dom.block-bound", SEQX, "        if seq_sum as usize + rest_literals.len() > MAX_BLOCK_SIZE as usize {", "        if rest_literals.len() > MAX_BLOCK_SIZE as usize {")
+mutant("c05-continue-around-budget", "C05", "C05.pair.budget", FD,
+       "            match strat {\n                BlockDecodingStrategy::All => { /* keep going */ }", "            if block_header.content_size == 0 {\n                continue;\n            }\n            match strat {\n                BlockDecodingStrategy::All => { /* keep going */ }")
+mutant("c05-new-growth-caller", "C05", "C05.who.growth", SCR, "        self.offset_hist = dict.offset_hist;\n", "        self.offset_hist = dict.offset_hist;\n        self.buffer.push(&dict.dict_content);\n")
+mutant("c05-streaming-asks-too-much", "C05", "C05.pair.budget", STREAM, "let additional_bytes_needed = buf.len() - decoder.can_collect();", "let additional_bytes_needed = buf.len() * 1024;")
+benign("c05-guard-reordered-operands", "C05", SEQX, "        if seq_sum + seq.ll + seq.ml > MAX_BLOCK_SIZE {", "        if MAX_BLOCK_SIZE < seq.ml + seq_sum + seq.ll {")
